@@ -76,41 +76,54 @@ def rule_c(ctx, cone):
     ctx.check(bool(arr) and (arr[0].endswith("; %d]" % S) or "SLOTS" in arr[0]), rid, "const:array-len", "storage has SLOTS cells: %s" % arr, None, arr)
     new = method(F, "new", SIGINFO)
     words, cells = roles(F)
+    def range_of(m, exprs):
+        """find the Range / RangeInclusive aggregate an iterator expression derives from: (lo, hi_exclusive) or None"""
+        st = [deep_strip(e) for e in exprs]
+        seen = 0
+        while st and seen < 60:
+            e = st.pop(); seen += 1
+            if e[0] == "agg" and e[1][0] == "adt" and e[1][1].endswith("ops::range::Range"):
+                return fold(e[2][0]), fold(e[2][1])
+            if e[0] == "agg" and e[1][0] == "adt" and e[1][1].endswith("ops::range::RangeInclusive"):
+                hi = fold(e[2][1]); return fold(e[2][0]), (None if hi is None else hi + 1)
+            if e[0] == "call" and (e[3] or "").endswith("RangeInclusive::<Idx>::new"):
+                a = [fold(x) for k in range(2) for x in flow(m).term_arg(e[1], k)]
+                return a[0], (None if a[1] is None else a[1] + 1)
+            if e[0] == "call":
+                for ai in range(len(m.term(e[1])["args"])):
+                    st += [deep_strip(x) for x in flow(m).term_arg(e[1], ai)]
+            elif e[0] in ("ref", "deref", "cast"):
+                st.append(deep_strip(e[1]))
+        return None
     fills = [(bb, t, c, w) for (bb, t, c, w) in word_calls(F, new, words) if len(t["args"]) == 2]
-    okk = len(fills) == 1
+    okk = False
     detail = None
-    if okk:
+    if len(fills) == 1:
         bb, t, c, w = fills[0]
         comps = [x for x in cfg.cycles(new) if bb in x]
-        okk = len(comps) == 1
-        if okk:
-            # the loop is driven by Range<usize>{1, SLOTS+1}
+        if len(comps) == 1:
             nxt = [b for b in comps[0] if new.term(b)["k"] == "call" and (new.term(b).get("def") or "").endswith("Iterator::next")]
-            okk = len(nxt) == 1
-            if okk:
-                itd = flow(new).term_arg(nxt[0], 0)
-                rng = None
-                st = [deep_strip(e) for e in itd]
-                seen = 0
-                while st and seen < 40:
-                    e = st.pop(); seen += 1
-                    if e[0] == "agg" and e[1][0] == "adt" and (e[1][1].endswith("ops::range::Range") or e[1][1].endswith("ops::range::RangeInclusive")):
-                        rng = e; break
-                    if e[0] == "call" and (e[3] or "").endswith("RangeInclusive::<Idx>::new"):
-                        a = [deep_strip(x) for k in range(2) for x in flow(new).term_arg(e[1], k)]
-                        rng = ("agg", ("adt", "core::ops::range::RangeInclusive", "RangeInclusive", ()), tuple(a)); break
-                    if e[0] == "call":
-                        for ai in range(len(new.term(e[1])["args"])):
-                            st += [deep_strip(x) for x in flow(new).term_arg(e[1], ai)]
-                    elif e[0] in ("ref", "deref", "cast"):
-                        st.append(deep_strip(e[1]))
-                lo = fold(rng[2][0]) if rng else None; hi = fold(rng[2][1]) if rng else None
-                if rng and rng[1][1].endswith("RangeInclusive") and hi is not None:
-                    hi += 1
+            if len(nxt) == 1:
+                rg = range_of(new, flow(new).term_arg(nxt[0], 0))
                 arg = [deep_strip(e) for e in flow(new).term_arg(bb, 1)]
                 item = all(mentions(e, lambda x: x[0] == "call" and x[1] == nxt[0]) for e in arg)
-                okk = lo == 1 and hi == S + 1 and item
-                detail = {"range": (lo, hi), "expected": (1, S + 1), "gives_loop_item": item}
+                okk = rg == (1, S + 1) and item
+                detail = {"range": rg, "expected": (1, S + 1), "gives_loop_item": item}
+    elif not fills:
+        # `(1..=SLOTS).for_each(|i| give(&me.empty, i))`: the give sits in a closure handed to a whole-range adapter
+        for cl in [i for i in F.inst if i.kind == "closure" and i.body is not None and i.name.startswith(new.name + "::{closure#")]:
+            cf = [(bb, t, c, w) for (bb, t, c, w) in word_calls(F, cl, words) if len(t["args"]) == 2]
+            if len(cf) != 1:
+                continue
+            arg = [deep_strip(e) for e in flow(cl).term_arg(cf[0][0], 1)]
+            item = all({x for x in deps(cl, [e], follow=lambda d: False) if x[0] in ("param", "call")} == {("param", 2)} for e in arg)
+            once, why = __import__("engine.rules.util", fromlist=["exactly_once"]).exactly_once(cl, [cf[0][0]])
+            for bb, t in new.calls():
+                if (t.get("def") or "").split("::")[-1] in ("for_each",) and any(deep_strip(e)[0] == "agg" and deep_strip(e)[1][0] == "closure" and deep_strip(e)[1][1] == cl.defp
+                                                                              for ai in range(len(t["args"])) for e in flow(new).term_arg(bb, ai)):
+                    rg = range_of(new, flow(new).term_arg(bb, 0))
+                    okk = rg == (1, S + 1) and item and once and not cfg.in_cycle(new, bb)
+                    detail = {"range": rg, "expected": (1, S + 1), "gives_item": item, "once_per_item": why}
     ctx.check(okk, rid, "new:fills-1..=SLOTS", "new() hands each index 1..=SLOTS to the pre-filled queue once (loop over Range{1, SLOTS+1})", new.span, detail)
     # cell index = lane value - 1
     for nm in ("send", "recv"):
